@@ -1,4 +1,4 @@
-import SgVerif.C18.Lemmas
+import SgVerif.C18.NoStarve5
 /-
 C18 — Concurrency limits are enforced without starvation.  Property theorems over the bookkeeping model
 `SgVerif.LmmBook` (src/kernel/lmm/System.cpp).  `run (init cfg sel) h` is the state after the history `h` of public
@@ -16,42 +16,62 @@ theorem conc_counter_exact (cfg : Cfg) (sel : Bool) (h : List Op) (c : Nat) :
       = sumConc ((run (init cfg sel) h).cnsts c).policy ((run (init cfg sel) h).cnsts c).en :=
   run_CE _ h (init_CE cfg sel) c
 
-/-- a constraint with a limit and no free slot: `get_concurrency_slack() <= 0` -/
-def Full (s : Sys) (c : Nat) : Prop := ∃ l, (s.cnsts c).limit = some l ∧ l ≤ (s.cnsts c).cur
+/-- **conc_le_limit** (full strength): after ANY history of public operations (any length, limits, weights, policies,
+`force_creation` included, selective on/off, current or repaired code) in which no `xbt_assert` fired
+(`failed = false`: a fired assertion aborts the program, there is no state to speak of), EVERY constraint with a
+concurrency limit has `concurrency_current_ ≤ concurrency_limit_`.  With `conc_counter_exact`: the number of enabled
+elements counting towards the limit never exceeds it.  The heart is the loop lemma `disableVar_gives_back`
+(C18/Bounded.lean): on the overflow path of `expand`, `disable_var` gives back exactly the slot `expand` took. -/
+theorem conc_le_limit (cfg : Cfg) (sel : Bool) (h : List Op) (hnf : (run (init cfg sel) h).failed = false)
+    (c l : Nat) (hl : ((run (init cfg sel) h).cnsts c).limit = some l) :
+    ((run (init cfg sel) h).cnsts c).cur ≤ l ∧
+    sumConc ((run (init cfg sel) h).cnsts c).policy ((run (init cfg sel) h).cnsts c).en ≤ l := by
+  have h1 := run_BD cfg sel h hnf c l hl
+  exact ⟨h1, by rw [← conc_counter_exact]; exact h1⟩
 
-instance (s : Sys) (c : Nat) : Decidable (Full s c) := by
-  unfold Full
-  cases h : (s.cnsts c).limit with
-  | none => exact isFalse (by simp)
-  | some l => exact if h2 : l ≤ (s.cnsts c).cur then isTrue ⟨l, rfl, h2⟩ else isFalse (by simp; exact Nat.lt_of_not_le h2)
+/-- **element lists are well-formed** (full strength, all histories incl. `force_creation`, no assertion fired): every
+element `(v, i)` of every variable is linked exactly once — in the enabled list of its constraint iff the variable's
+penalty is positive, else in the disabled list —, the lists contain nothing else, a staged variable is disabled.
+(`check_concurrency`'s "Variable inconsistency" assertions.) -/
+theorem lists_well_formed (cfg : Cfg) (sel : Bool) (h : List Op) (hnf : (run (init cfg sel) h).failed = false) :
+    WF (run (init cfg sel) h) := run_WF cfg sel h hnf
 
-/-- a live variable that wants to run (`staged_sharing_penalty_ > 0`), is held back, and none of the constraints it
-uses is full: it waits although every resource it uses has room -/
-def Starving (s : Sys) (v : Nat) : Prop :=
-  (s.vars v).alive = true ∧ 0 < (s.vars v).staged ∧ ∀ c ∈ (s.vars v).cn, ¬ Full s c
+/-- **staged_implies_some_full** (full strength for the repaired code): with `update_variable_penalty(var, 0)` repaired
+(`fixSuspend`; the other two switches are free), after EVERY public operation of EVERY history without
+`force_creation` in which no assertion fired, NO live staged variable starves: it uses at least one constraint with
+`get_concurrency_slack() ≤ 0`.  The exclusion of `force_creation` is necessary (`force_creation_counterexample`,
+registered finding `force-creation-duplicate`), and so is the repair (`staged_implies_some_full_counterexample`).
+Proof: invariant `Inv` (C18/NoStarve*.lean) = element-list well-formedness + no duplicate constraint per variable +
+no starvation; the walk lemma `odvWalk_sat` of `on_disabled_var`. -/
+theorem staged_implies_some_full (cfg : Cfg) (hfix : cfg.fixSuspend = true) (sel : Bool) (h : List Op)
+    (hf : ∀ op ∈ h, op.noForce = true) (hnf : (run (init cfg sel) h).failed = false) (v : Nat) :
+    ¬ Starving (run (init cfg sel) h) v := by
+  intro ⟨hal, hst, hno⟩
+  rcases (Inv_run h _ hf (Inv_init cfg sel hfix) hnf).ns v hal with h0 | ⟨c, hc, hfull⟩
+  · omega
+  · exact hno c hc hfull
 
-instance (s : Sys) (v : Nat) : Decidable (Starving s v) := by unfold Starving; exact inferInstance
-
-/-
-**staged_implies_some_full / no_starvation_step** — full-strength statement (NOT proved here, and FALSE on the
-current code, see the counterexample below):
-
-  theorem staged_implies_some_full (sel : Bool) (h : List Op) (hf : ∀ op ∈ h, op.noForce = true) (v : Nat) :
-      ¬ Starving (run (init Cfg.fixed sel) h) v
-
-i.e. with `update_variable_penalty(var, 0)` repaired (props/C18/proposed_fix.diff), after every public operation of
-every history without `force_creation`, every staged variable uses a constraint with `get_concurrency_slack() = 0`.
-What is established instead:
-  * `staged_implies_some_full_counterexample`: the current code violates it (replayed on the library, finding
-    `suspend-no-reexamine`);
-  * `staged_ok_fixed_on_witness`: the repaired model does not, on the same history;
-  * `force_creation_counterexample`: with `force_creation` duplicates it is false even on the repaired code;
-  * `can_enable_iff`: the decision `Variable::can_enable` taken by `on_disabled_var` is exactly "staged and every
-    constraint of the variable has a free slot" — the step-level fact the invariant rests on;
-  * the monitor `starving` (Replay.lean) is evaluated on the implementation after every operation of every
-    generated history, and model = patched library on all of them (NOTES.md).
-The invariant proof (well-formedness of the two element lists + the walk of `on_disabled_var`) is left open.
--/
+/-- **no_starvation_step** (full strength, repaired code): from ANY state (reachable or not) that is well-formed, has
+no variable with two elements on one constraint, and in which no staged variable starves, one more public operation
+(not `force_creation`) that fires no assertion leaves no staged variable starving — and re-establishes the
+hypotheses. -/
+theorem no_starvation_step (s : Sys) (op : Op) (hfix : s.cfg.fixSuspend = true) (hwf : WF s) (hnd : ND s)
+    (hns : ∀ v, ¬ Starving s v) (hno : op.noForce = true) (hnf : (step s op).failed = false) :
+    (∀ v, ¬ Starving (step s op) v) ∧ WF (step s op) ∧ ND (step s op) := by
+  have hNS : NS s := by
+    intro w hw
+    by_cases hst : (s.vars w).staged = 0
+    · exact Or.inl hst
+    · right
+      apply Classical.byContradiction
+      intro hh
+      exact hns w ⟨hw, by omega, fun c hc hf => hh ⟨c, hc, hf⟩⟩
+  have hi := Inv_step op hno ⟨hwf, hnd, hNS, hfix⟩ hnf
+  refine ⟨?_, hi.wf, hi.nd⟩
+  intro v ⟨hal, hst, hno'⟩
+  rcases hi.ns v hal with h0 | ⟨c, hc, hfull⟩
+  · omega
+  · exact hno' c hc hfull
 
 /-- limit 1; v0 enabled, v1 staged behind it; `update_variable_penalty(v0, 0)` (suspend) -/
 def suspendWitness : List Op :=
@@ -77,54 +97,19 @@ theorem force_creation_counterexample :
   decide
 
 theorem slackPos_none : slackPos none = true := rfl
-theorem slackPos_some (m : Int) : slackPos (some m) = true ↔ 0 < m := by simp [slackPos]
+theorem slackPos_some (m : Int) : slackPos (some m) = true ↔ 0 < m := slackPos_some' m
 
 /-- `Variable::get_min_concurrency_slack() > 0` (with its early return) says exactly that every constraint of the
 variable has a positive slack -/
 theorem minSlackGo_pos (s : Sys) : ∀ (l : List Nat) (acc : Option Int),
-    slackPos (minSlackGo s l acc) = true ↔ (slackPos acc = true ∧ ∀ c ∈ l, slackPos (slack (s.cnsts c)) = true) := by
-  intro l
-  induction l with
-  | nil => intro acc; simp [minSlackGo]
-  | cons c rest ih =>
-    intro acc
-    simp only [minSlackGo, List.mem_cons, forall_eq_or_imp]
-    cases hs : slack (s.cnsts c) with
-    | none =>
-      simp only [slackPos_none, true_and]
-      exact ih acc
-    | some sl =>
-      cases acc with
-      | none =>
-        simp only [if_true, slackPos_none, true_and, slackPos_some]
-        by_cases h0 : sl = 0
-        · simp [h0, slackPos_some]
-        · simp only [h0, if_false]
-          rw [ih, slackPos_some]
-      | some m =>
-        simp only [slackPos_some]
-        by_cases hlt : sl < m
-        · simp only [hlt, decide_true, if_true]
-          by_cases h0 : sl = 0
-          · simp [h0, slackPos_some]
-          · simp only [h0, if_false]
-            rw [ih, slackPos_some]
-            constructor
-            · intro ⟨h1, h2⟩; exact ⟨by omega, h1, h2⟩
-            · intro ⟨_, h1, h2⟩; exact ⟨h1, h2⟩
-        · simp only [hlt, decide_false, Bool.false_eq_true, if_false]
-          rw [ih, slackPos_some]
-          constructor
-          · intro ⟨h1, h2⟩; exact ⟨h1, by omega, h2⟩
-          · intro ⟨h1, _, h2⟩; exact ⟨h1, h2⟩
+    slackPos (minSlackGo s l acc) = true ↔ (slackPos acc = true ∧ ∀ c ∈ l, slackPos (slack (s.cnsts c)) = true) :=
+  minSlackGo_pos' s
 
 /-- **can_enable_iff**: `on_disabled_var` enables a variable exactly when it is staged and every constraint it uses
 has a free slot (for every state: no hypothesis) -/
 theorem can_enable_iff (s : Sys) (v : Nat) :
-    canEnable s v = true ↔ (0 < (s.vars v).staged ∧ ∀ c ∈ (s.vars v).cn, slackPos (slack (s.cnsts c)) = true) := by
-  unfold canEnable minSlack
-  rw [Bool.and_eq_true, minSlackGo_pos, decide_eq_true_eq]
-  simp [slackPos_none]
+    canEnable s v = true ↔ (0 < (s.vars v).staged ∧ ∀ c ∈ (s.vars v).cn, slackPos (slack (s.cnsts c)) = true) :=
+  can_enable_iff' s v
 
 /-! ### non-vacuity: concrete histories exercising staging, un-staging by `variable_free`, weights below 1 -/
 
@@ -140,5 +125,22 @@ example :
     let s := run (init Cfg.current true)
       [.cnew 40 (some 1) .shared, .vnew 4 (-1), .expand 0 0 4 false, .vnew 4 (-1), .expand 0 1 2 false, .expand 0 1 2 false]
     s.failed = false ∧ (s.vars 1).pen = 0 ∧ (s.vars 1).staged = 4 ∧ (s.cnsts 0).cur = 1 ∧ Full s 0 := by decide
+
+/-- non-vacuity of `staged_implies_some_full` / `conc_le_limit`: the suspend history on the repaired code has no
+`force_creation`, fires no assertion, and reaches the limit -/
+example : (∀ op ∈ suspendWitness, op.noForce = true) ∧ (run (init Cfg.fixed true) suspendWitness).failed = false ∧
+    ((run (init Cfg.fixed true) suspendWitness).cnsts 0).limit = some 1 ∧ ((run (init Cfg.fixed true) suspendWitness).cnsts 0).cur = 1 := by
+  decide
+
+/-- non-vacuity of `no_starvation_step`: the state before the suspend satisfies the hypotheses (v1 is staged behind v0
+on a full constraint), and the suspend is a non-failing step -/
+example :
+    let s := run (init Cfg.fixed true) (suspendWitness.take 5)
+    s.cfg.fixSuspend = true ∧ WF s ∧ ND s ∧ (∀ v, ¬ Starving s v) ∧ (s.vars 1).staged = 4 ∧ Full s 0 ∧
+    (step s (.vpen 0 0)).failed = false := by
+  have hnf : (run (init Cfg.fixed true) (suspendWitness.take 5)).failed = false := by decide
+  have hi := Inv_run (suspendWitness.take 5) _ (by decide) (Inv_init Cfg.fixed true rfl) hnf
+  refine ⟨by decide, hi.wf, hi.nd, ?_, by decide, by decide, by decide⟩
+  exact staged_implies_some_full Cfg.fixed rfl true _ (by decide) hnf
 
 end SgVerif.C18
